@@ -105,3 +105,67 @@ def prop_by_copy(n, base):
     """Reach the shape from a valid property by copy-with-changes."""
     p = base.but(scope=scope(n['scope']))
     return p.but(pattern=pattern(n['pattern']))
+
+
+# ---- 'derived' way (C02): every predicate is reached by the substitution API from a predicate that was first used
+# ---- (and therefore sanity-checked) inside another, valid, property ------------------------------------------------
+def _rename_free(n, m, bound=()):
+    if isinstance(n, list):
+        return [_rename_free(x, m, bound) for x in n]
+    if not isinstance(n, dict):
+        return n
+    c = n.get('cls')
+    if c == 'HplVarReference':
+        if n['name'] in m and n['name'] not in bound:
+            return dict(n, name=m[n['name']])
+        return n
+    if c == 'HplQuantifier':
+        b2 = tuple(bound) + (n['variable'],)
+        return dict(n, domain=_rename_free(n['domain'], m, b2), condition=_rename_free(n['condition'], m, b2))
+    return {k: _rename_free(v, m, bound) for k, v in n.items()}
+
+
+def pred_derived(n):
+    from hpl.ast import expressions as E
+    from hpl.ast import events as V
+    from hpl.ast.properties import HplPattern, HplProperty, HplScope
+    if n['cls'] != 'HplPredicateExpression':
+        return pred(n)
+    try:
+        refs = sorted(pred(n).external_references())
+    except Exception:  # noqa
+        return pred(n)
+    if not 1 <= len(refs) <= 2:
+        return pred(n)
+    fresh = ['Qx1', 'Qx2']
+    m = {r: fresh[i] for i, r in enumerate(refs)}
+    try:
+        p0 = pred(_rename_free(n, m))
+        # the warm-up property binds Qx1 (activator) and Qx2 (trigger) before the behaviour that carries p0
+        HplProperty(HplScope.after(V.HplSimpleEvent.publish('w0', alias='Qx1')),
+                    HplPattern.response(V.HplSimpleEvent.publish('w1', alias='Qx2'), V.HplSimpleEvent.publish('t9', predicate=p0)))
+        p = p0
+        for r in refs:
+            p = p.replace_var_reference(m[r], E.HplVarReference('@' + r))
+    except Exception:  # noqa
+        return pred(n)
+    return p
+
+
+def event_derived(n):
+    from hpl.ast import events as V
+    if n['cls'] == 'HplEventDisjunction':
+        return V.HplEventDisjunction(event_derived(n['event1']), event_derived(n['event2']))
+    alias = n['alias'][1] if n['alias'][0] == 'some' else None
+    return V.HplSimpleEvent.publish(n['name'], predicate=pred_derived(n['predicate']), alias=alias)
+
+
+def prop_derived(n):
+    """Like prop(), with every predicate obtained by pred_derived."""
+    global event
+    saved = event
+    event = event_derived
+    try:
+        return prop(n)
+    finally:
+        event = saved
